@@ -980,8 +980,12 @@ def install(reg):
         rec = I.st.objs[a[0].oid]
         rows = rec.meta.get("rows")
         stmt = rec.meta["stmt"]
-        if rows is None or rows[0] != "any" or stmt.limit is not None or stmt.order_by:
+        if rows is None or rows[0] != "any" or stmt.limit is not None:
             raise Unsupported("cursor.fetchall on this kind of query")
+        if stmt.order_by:
+            # ORDER BY is not represented: the rows come in an unspecified order (a superset of the behaviours of the sorted
+            # result, so what is proved for every order holds for the sorted one; order-dependent claims are out of reach)
+            I.st.assumptions.add("ORDER BY of a multi-row SELECT is not represented (rows in unspecified order)")
         tab = rec.meta["tab"]
         ev = SqlEval(I, rec.meta.get("params"))
         keys = fresh_value(I.st, I.typer, ("list", ("int",)), "rows")
